@@ -9,8 +9,12 @@ import os
 import sys
 import time
 import traceback
+import warnings
 
 from hv import env
+
+# hypothesis computes the repr of a deeply nested strategy for its own diagnostics: costs time, tells nothing here
+warnings.filterwarnings("ignore", message="Generating overly large repr")
 from hv.evidence import Recorder, canon, case_hash
 from hv.evidence import write as write_evidence
 from hv.findings import Known
@@ -198,13 +202,15 @@ def hypothesis_search(mod, judge: Judge, tier: str, seed: int, shard: int, nshar
             raise
         if state["best"] is not None:
             # a failure was observed but hypothesis could not replay it: re-run it ourselves
-            for _ in range(3):
+            for _ in range(10):
                 verdicts = judge(state["best"]["case"])
                 if verdicts:
                     return {"case": state["best"]["case"], "verdicts": verdicts}
-            raise env.HarnessError(
-                f"non-reproducible failure (flaky harness?): {canon(state['best'])[:2000]}"
-            ) from exc
+            # The oracle judged a real execution of the library and found the property broken, yet the same case does
+            # not fail again: the harness is a pure function of the case (virtual time, owned schedule), so what varies
+            # is the code under test (object addresses, collection timing, hash order). The observation stands; the
+            # replay file says that it is intermittent and keeps what was observed.
+            return {**state["best"], "intermittent": True}
         raise env.HarnessError("hypothesis error: " + "".join(traceback.format_exception(exc))[-3000:]) from exc
     finally:
         judge.rec.shrinking = False
@@ -277,6 +283,12 @@ def write_replay(pid: str, found: dict, seed: int, tier: str) -> str:
             {
                 "property": pid,
                 "verdicts": found["verdicts"],
+                **(
+                    {"intermittent": "observed in the run that wrote this file, not reproduced by 10 immediate re-runs of the same case; "
+                     "--replay repeats the case up to 25 times"}
+                    if found.get("intermittent")
+                    else {}
+                ),
                 "case": found["case"],
                 "seed": seed,
                 "tier": tier,
@@ -318,6 +330,10 @@ def main(argv=None) -> int:
         rec = Recorder()
         try:
             verdicts = Judge(mod, rec)(case)
+            for _ in range(24 if isinstance(doc, dict) and doc.get("intermittent") else 0):
+                if verdicts:
+                    break
+                verdicts = Judge(mod, rec)(case)
         except env.HarnessError as exc:
             print(f"HARNESS-ERROR property={pid}: {exc}", file=sys.stderr)
             return env.HARNESS_ERROR
@@ -405,6 +421,8 @@ def main(argv=None) -> int:
         rp = write_replay(pid, found, seed, a.tier)
         for v in found["verdicts"][:5]:
             print(f"  {v['sig']}: {str(v['detail'])[:800]}")
+        if found.get("intermittent"):
+            print("  (intermittent: observed once, not reproduced by 10 immediate re-runs of the same case)")
         print(f"VIOLATION property={pid} replay={rp}")
         return 1
     print(
